@@ -15,8 +15,11 @@ cp "$sd/NOTES.md" "$out/NOTES.md" 2>/dev/null
 export CARGO_NET_OFFLINE=true
 cd "$wt" || exit 2
 git checkout -q -- . ; rm -f mla/tests/seeded_demo_confirm.rs mlar/tests/seeded_demo_confirm.rs
-demo_dir=mla/tests
-grep -q "assert_cmd\|cargo_bin" "$out/demo.rs" 2>/dev/null && demo_dir=mlar/tests
+demo_dir=${DEMO_DIR:-mla/tests}
+if [ -z "${DEMO_DIR:-}" ]; then
+  grep -q "assert_cmd\|cargo_bin" "$out/demo.rs" 2>/dev/null && demo_dir=mlar/tests
+  if grep -q "curve25519_parser" "$out/demo.rs" 2>/dev/null && ! grep -q "mla::" "$out/demo.rs" 2>/dev/null; then demo_dir=curve25519-parser/tests; fi
+fi
 pkg=$(echo $demo_dir | cut -d/ -f1)
 [ "$pkg" = "curve25519-parser" ] || true
 cp "$out/demo.rs" $demo_dir/seeded_demo_confirm.rs
